@@ -277,6 +277,7 @@ type Run struct {
 	pureDepth     int
 	curCon        *Contract
 	closable      map[string]bool
+	captureReader *ssa.Function   // capture check: the callback whose reads decide whether a later field store matters
 	kindFilter    map[string]bool // sweeps: obligation kinds to generate (nil: all)
 	sendable      map[string]bool
 	ctxInner      map[string]Val
